@@ -211,6 +211,15 @@ impl Engine for SsSwapValue {
         c19::case_strat().boxed()
     }
     fn run(&self, c: &c19::Case, st: &mut Stats) -> Result<(), String> {
+        // C03 speaks about all amplification factors: some cases far above the 10^6 of C19's range
+        let boosted;
+        let c = if let Some(k) = c.beyond {
+            boosted = c19::Case { amp: c.amp.saturating_mul(10u64.pow(k.clamp(1, 6) as u32)), ..c.clone() };
+            st.bump("states with an amplification boosted by 10^k");
+            &boosted
+        } else {
+            c
+        };
         let s = match c19::build_state(c) {
             Some(s) => s,
             None => return Ok(()),
